@@ -30,6 +30,12 @@ PATTERNS_Q = [(), ("cap",), ("soc",), ("lo",), ("hi",), ("soc", "cap"), ("absent
 PATTERNS_T = PATTERNS_Q + [("lo", "hi"), ("soc", "lo"), ("cap", "hi"), ("cap", "soc", "lo", "hi")]
 
 
+def Q3_FIRSTS():
+    """Quick tier, three batteries: a small menu for the first one (the other two range over the reduced menu, so
+    pools with two identical batteries and a different third one are included)."""
+    return battery_states([()], caps=[1000.0, 3000.0], socs=[20.0, 50.0, 80.0], limits=[(20.0, 80.0), (0.0, 100.0)])
+
+
 def battery_states(patterns, caps=CAPS, socs=SOCS, limits=LIMITS):
     out = []
     for pat in patterns:
@@ -141,7 +147,7 @@ def shard(args) -> Acc:
         bs = battery_states(pats)
         rest = bs
     else:
-        bs = battery_states(PATTERNS_Q)
+        bs = battery_states(PATTERNS_Q) if tier != "quick" else Q3_FIRSTS()
         rest = battery_states([(), ("soc",), ("absent",)], caps=[0.0, 1000.0], socs=[20.0, 50.0, 95.0],
                               limits=[(20.0, 80.0), (50.0, 50.0)])
     firsts = bs[first_lo:first_hi]
@@ -386,8 +392,8 @@ def run(tier: str, seed: int, workers: int):
     nb = len(battery_states(pats))
     step = 8
     shards = []
-    for n in ([1, 2] if tier == "quick" else [1, 2, 3]):
-        nbn = nb if n <= 2 else len(battery_states(PATTERNS_Q))
+    for n in [1, 2, 3]:
+        nbn = nb if n <= 2 else (len(battery_states(PATTERNS_Q)) if tier != "quick" else len(Q3_FIRSTS()))
         for lo in range(0, nbn, step):
             shards.append((tier, n, lo, lo + step))
     if seed:
@@ -400,7 +406,7 @@ def run(tier: str, seed: int, workers: int):
     acc = pmap_acc(_dispatch, shards, workers)
     acc.merge(pmap_acc(fetcher_shard, [None], 1))
     meta = {
-        "rule": "n batteries (quick 1-2, thorough 1-3), each from capacity {0,1000,3000} x SoC {0,5,20,50,80,100} x limits "
+        "rule": "n batteries (1-3; in the quick tier the three-battery pools use reduced menus), each from capacity {0,1000,3000} x SoC {0,5,20,50,80,100} x limits "
         "{(20,80),(0,100),(50,50)} x a missing-metric pattern (or absent from the data), every working subset; each case "
         "generated once; non-trivial = >= 2 working batteries with at least one missing metric somewhere; plus 16 NaN "
         "patterns through the real LatestBatteryMetricsFetcher on the virtual loop; plus the streaming path: two real SendOnUpdate "
@@ -412,7 +418,7 @@ def run(tier: str, seed: int, workers: int):
             "with zero total usable capacity the documented quotient is undefined: any value in [0,100] is accepted",
         ],
         "exhaustive": True,
-        "bounds": {"batteries": [1, 2] if tier == "quick" else [1, 2, 3], "per_battery_states": nb},
+        "bounds": {"batteries": [1, 2, 3], "per_battery_states": nb},
     }
     return acc, meta
 
